@@ -255,10 +255,10 @@ def enc_cases(ck):
         if len(bw) % 2 and d in DT_COMPLEX:
             bw.append(0)
         cases.append({"dtype": d, "shape": [len(bw) // comps(d)], "words": bw})
-        n = ck.pick(2000, 200000)
+        n = ck.pick(2000, 600000)
         cases.append({"dtype": d, "shape": [n], "words": rand_words(rng, d, n * comps(d))})
     # strings
-    for _ in range(ck.pick(60, 4000)):
+    for _ in range(ck.pick(60, 12000)):
         cases.append(rand_spec(rng, "str", layout="C"))
     cases.append({"dtype": "str", "shape": [len(ALPHABET)], "strs": [[c, 0x61] for c in ALPHABET]})
     # all shapes x all dtypes
@@ -475,7 +475,7 @@ def run_attr_correspondence(ck, q):
 
     from translator.c10_tables import CLASSES
 
-    vals = value_universe(ck.rng, ck.pick(40, 1500))
+    vals = value_universe(ck.rng, ck.pick(40, 4000))
     g = results(y=op.const(1))
     vals.append(({"k": "graph"}, g))
     reqs, real = [], []
@@ -582,7 +582,7 @@ def run_float_correspondence(ck):
     import numpy as np
 
     rng = ck.rng
-    bits = boundary_doubles(rng, ck.pick(20000, 400000))
+    bits = boundary_doubles(rng, ck.pick(20000, 1500000))
     got = ck.driver().ask_many("C10", [{"op": "r32", "bits": bits}])[0]["f32"]
     with np.errstate(all="ignore"):
         exp = np.array(bits, dtype=np.uint64).view(np.float64).astype(np.float32).view(np.uint32).tolist()
@@ -722,7 +722,7 @@ def run_embed_correspondence(ck, q):
     fut_init = _imp("spox._future", "initializer")
     g_init = _imp("spox._graph", "initializer")
     g_args = _imp("spox._graph", "arguments")
-    vals = py_values(ck.rng, ck.pick(60, 1500))
+    vals = py_values(ck.rng, ck.pick(60, 6000))
     reqs, real = [], []
     for j, v in vals:
         reqs.append({"op": "embed", "q": q, "fn": "const", "val": j})
@@ -1330,7 +1330,7 @@ def run_capture_correspondence(ck, info):
         if row is None:
             ck.broken("correspondence", "C10 capture table", f"no row for {site.table_site}")
             continue
-        for _ in range(ck.pick(8, 80)):
+        for _ in range(ck.pick(8, 300)):
             content = gen_content(rng, site.kind)
             muts = gen_muts(rng, site.kind, content)
             try:
@@ -1361,8 +1361,54 @@ EMBED_ROUTES = ["constant", "const", "const_dtype", "const_list_dtype", "initial
                 "future_initializer_dtype", "arg_default", "tensor_attr", "attr_tensor_class"]
 
 
+def _py_decode(j):
+    if isinstance(j, dict):
+        return struct.unpack("<d", struct.pack("<Q", j["f"]))[0]
+    if isinstance(j, list):
+        return [_py_decode(x) for x in j]
+    return j
+
+
+def embed_py_case(case):
+    """const / _future.initializer on a bare Python value: the embedded tensor must be np.array(value)."""
+    import numpy as np
+
+    import spox.opset.ai.onnx.v17 as op
+
+    v = _py_decode(case["py"])
+    ref = np.array(v)
+    if case["route"] == "future_py":
+        f = _imp("spox._future", "initializer")
+        if f is None:
+            return [("unobservable", "spox._future.initializer is not there")]
+    try:
+        if case["route"] == "const_py":
+            var = op.const(v)
+            a = _first_attr_tensor(_build_bytes(var), "Constant", "value")
+            tensor = W.tensor(a["t"])
+        else:
+            var = f(v)
+            g = W.graph_parts(W.graph_of_model(_build_bytes(op.identity(var))))
+            tensor = g["initializers"][0]
+    except Exception as e:  # noqa: BLE001
+        return [("raises", f"{case['route']}({v!r}) raised {type(e).__name__}: {str(e)[:160]}")]
+    want = _obs_array(ref)
+    got = _obs_tensor(tensor)
+    probs = []
+    if not same_obs(got, want):
+        probs.append(("values", f"{case['route']}({v!r}) embedded {str(got)[:120]}, np.array gives {str(want)[:120]}"))
+    from spox import Tensor
+
+    wt = Tensor(ref.dtype, ref.shape)
+    if var.type != wt:
+        probs.append(("vartype", f"{case['route']}({v!r}): Var.type {var.type}, expected {wt}"))
+    return probs
+
+
 def embed_case(case):
     """Run one embedding on the real code and judge it against the array itself. -> [(key, what)]"""
+    if "py" in case:
+        return embed_py_case(case)
     import numpy as np
 
     import spox.opset.ai.onnx.v17 as op
@@ -1499,7 +1545,14 @@ def gen_embed_cases(ck):
             if dst in DT_INT + ["bool"] and src in FMT:
                 continue
             cases.append({"kind": "embed", "route": route, "arr": spec, "req_dtype": dst})
-    extra = ck.pick(400, 20000)
+    fb = lambda x: {"f": struct.unpack("<Q", struct.pack("<d", x))[0]}  # noqa: E731
+    pys = [1, -1, 0, 2**63 - 1, -2**63, 2**63, 2**64 - 1, True, False, fb(1.5), fb(-0.0), fb(float("nan")), fb(1e40), "ü", "", "a\x00b",
+           [1, 2], [1, fb(2.5)], [True, False], [True, 2], [0, 2**63], [2**63], ["a", "ü"], [], [[1, 2], [3, 4]], [[1], [fb(0.5)]],
+           [[True], [False]], [-1, 2**63]]
+    for v in pys:
+        for route in ("const_py", "future_py"):
+            cases.append({"kind": "embed", "route": route, "py": v, "arr": {"dtype": "py", "shape": []}})
+    extra = ck.pick(400, 60000)
     for _ in range(extra):
         d = rng.choice(DT_ALL)
         route = rng.choice(["constant", "const", "initializer", "future_initializer", "arg_default", "attr_tensor_class"])
@@ -1748,6 +1801,8 @@ def run_oracle(ck):
                 UNOBSERVABLE.setdefault(f"route {case['route']}", what)
                 continue
             d = case.get("req_dtype") or case["arr"]["dtype"]
+            if "py" in case:
+                d = type(_py_decode(case["py"])).__name__
             ck.failure(f"embed:{case['route']}:{d}:{key}", f"{case['route']}: {what}", case)
     # F2 attribute kinds
     for i, (desc, build, exp) in enumerate(attr_kind_cases()):
@@ -1765,7 +1820,7 @@ def run_oracle(ck):
     import numpy as _np
 
     _x = _arg(_T(_np.float32, (2,)))
-    fbits = boundary_doubles(rng, ck.pick(60, 1500))
+    fbits = boundary_doubles(rng, ck.pick(60, 6000))
     for k in range(0, len(fbits), 8):
         chunk = [struct.unpack("<d", struct.pack("<Q", b))[0] for b in fbits[k:k + 8]]
         stats["attr_kind"] += 1
@@ -1809,7 +1864,7 @@ def run_oracle(ck):
                        {"kind": "wrong_kind", "index": i, "desc": desc})
     # F4 captured at the call
     for site in sites():
-        for k in range(ck.pick(16, 600)):
+        for k in range(ck.pick(16, 2000)):
             content = gen_content(rng, site.kind)
             muts = gen_muts(rng, site.kind, content)
             early = k % 2 == 1
